@@ -59,6 +59,9 @@ func cmdTrace(args []string) {
 	prog := fs.String("prog", "p1", "corpus program")
 	p := fs.Int("p", 1, "-p for go build")
 	verbose := fs.Bool("v", false, "print every step")
+	rtseed := fs.String("rtseed", "1", "VERIF_RTSEED")
+	ctrl := fs.Bool("ctrlflow", false, "enable control flow obfuscation")
+	dump := fs.String("dump", "", "copy every compile input into this directory")
 	fs.Parse(args)
 	res, err := simbuild.Build("/repo", os.Stderr)
 	if err != nil {
@@ -66,6 +69,9 @@ func cmdTrace(args []string) {
 		os.Exit(2)
 	}
 	cfg := world.Config{Name: "default"}
+	if *ctrl {
+		cfg = world.Config{Name: "ctrlflow", Env: map[string]string{"GARBLE_EXPERIMENTAL_CONTROLFLOW": "1"}}
+	}
 	t0 := time.Now()
 	tmpl, err := world.EnsureTemplate(res.Bin, res.Key, []world.Config{cfg})
 	if err != nil {
@@ -78,6 +84,7 @@ func cmdTrace(args []string) {
 		panic(err)
 	}
 	defer w.Close()
+	w.RtSeed = *rtseed
 	t0 = time.Now()
 	if err := w.Load(tmpl); err != nil {
 		panic(err)
@@ -90,6 +97,27 @@ func cmdTrace(args []string) {
 	out := filepath.Join(w.Out, "bin")
 	c := w.Client("A", src, cfg, "build", fmt.Sprintf("-p=%d", *p), "-o", out, ".")
 	s := &engine.Sim{GarbleBin: res.Bin, Clients: []*engine.Client{c}, Policy: engine.Canonical{}, Serial: *p == 1, RunDir: w.Root, Timeout: 5 * time.Minute}
+	if *dump != "" {
+		os.MkdirAll(*dump, 0o755)
+		s.OnStep = func(s *engine.Sim, st engine.Step) {
+			if st.Op != "exec" || filepath.Base(st.Path) != "compile" {
+				return
+			}
+			for i := len(s.Log) - 1; i >= 0; i-- {
+				le := s.Log[i]
+				if le.Proc == st.Proc && le.Msg.Op == "exec" {
+					for _, a := range le.Msg.Args {
+						if filepath.Ext(a) == ".go" {
+							if b, err := os.ReadFile(a); err == nil {
+								os.WriteFile(filepath.Join(*dump, filepath.Base(filepath.Dir(a))+"_"+filepath.Base(a)), b, 0o644)
+							}
+						}
+					}
+					break
+				}
+			}
+		}
+	}
 	t0 = time.Now()
 	err = s.Run()
 	fmt.Println("run", time.Since(t0), "err", err, "exit", c.ExitCode, "deadlock", s.Deadlock)
